@@ -871,7 +871,6 @@ impl<S: BaseFloat> SquareMatrix for Matrix4<S> {
         if det == S::zero() {
             None
         } else {
-            let inv_det = S::one() / det;
             let t = self.transpose();
             let cf = |i, j| {
                 let mat = match i {
@@ -894,7 +893,9 @@ impl<S: BaseFloat> SquareMatrix for Matrix4<S> {
                 } else {
                     S::one()
                 };
-                mat.determinant() * sign * inv_det
+                // divide rather than multiply by 1/det: the reciprocal of a
+                // subnormal determinant is not finite although the inverse is
+                mat.determinant() * sign / det
             };
 
             #[cfg_attr(rustfmt, rustfmt_skip)]
